@@ -104,6 +104,8 @@ SITES = [
     ("popContextClears", "src/error_context.c", r"current_error_context = econ->save_context;" + W + r"clear_error_state \(\);", 1, None),
     ("catchKeepsCostBit", "src/frame.c", r"if \(get_error_state \(ES_MAX_EVAL_COST\)\)" + W + r"\{" + W + r"pop_context \(&econ\);" + W + r"(?:/\*.*?\*/)?" + W + r"set_error_state \(ES_MAX_EVAL_COST\);" + W + r"error", 1, None),
     ("catchKeepsFullBit", "src/frame.c", r"if \(get_error_state \(ES_STACK_FULL\)\)" + W + r"\{" + W + r"pop_context \(&econ\);" + W + r"set_error_state \(ES_STACK_FULL\);" + W + r"error", 1, None),
+    ("catchPushesValue", "src/frame.c", r"restore_context \(&econ\);" + W + r"sp\+\+;" + W + r"\*sp = catch_value;", 1, None),
+    ("throwNeedsCatchFrame", "src/error_context.c", r"void throw_error \(\) \{" + W + r"if \(current_error_context && \(\(current_error_context->save_csp \+ 1\)->framekind & FRAME_MASK\) == FRAME_CATCH\)", 1, None),
     ("handlerKeepsState", "src/error_context.c", r"int limit_state = get_error_state \(ES_STACK_FULL \| ES_MAX_EVAL_COST\);.{0,300}?mudlib_error_handler \(err, [01]\);.{0,120}?set_error_state \(limit_state\);", 2, None),
     ("safeApplyOneTick", "src/apply.c", r"restore_context \(&econ\);.{0,400}?if \(get_error_state \(ES_MAX_EVAL_COST\)\)" + W + r"eval_cost = (\d+);", 1, "safeTickLeft"),
     ("safeFunpOneTick", "lib/lpc/functional.c", r"restore_context \(&econ\);.{0,400}?if \(get_error_state \(ES_MAX_EVAL_COST\)\)" + W + r"eval_cost = (\d+);", 1, "safeTickLeftFunp"),
@@ -557,7 +559,7 @@ class C04(Prop):
         B.append(self.sizes_case("b-sz-derived", {"array": 50, "mapping": 80, "string": 200},
                                  ["copy_array 50", "copy_mapping 80", "sort_array 50", "map_array 50", "lower_case 200", "filter_array 50 20",
                                   "filter_array 50 0", "unique_array 50 7", "unique_array 50 0", "array_sub 50 20", "array_and 50 20",
-                                  "keys 50", "keys 51", "values 80", "allocate_mapping 1000000", "allocate_mapping -1"]))
+                                  "keys 50", "keys 51", "values 80", "filter_mapping 80 30", "filter_mapping 80 0", "map_mapping 80", "map_mapping 81", "allocate_mapping 1000000", "allocate_mapping -1"]))
         B.append(self.sizes_case("b-sz-wide", {"array": 70000, "buffer": 200000, "string": 100000},
                                  ["allocate 65535", "allocate_buffer 65535", "join 60000 30000", "sprintf 30000 30000", "sprintf 60000 40000"]))
         B.append(self.sizes_case("b-sz-sprintf", {"string": 200}, ["sprintf 100 100", "sprintf 100 101", "sprintf 200 100", "sprintf 1 1"]))
@@ -642,10 +644,13 @@ class C04(Prop):
                               ("replace", 3), ("sprintf", 1), ("derived", 6)])
             if k == "derived":
                 d = rng.choice(["copy_array", "copy_mapping", "sort_array", "map_array", "lower_case", "filter_array",
-                                "unique_array", "array_sub", "array_and", "keys", "values", "allocate_mapping"])
+                                "unique_array", "array_sub", "array_and", "keys", "values", "allocate_mapping", "filter_mapping", "map_mapping"])
                 if d in ("copy_array", "sort_array", "map_array"):
                     cmds.append("%s %d" % (d, near(la, False)))
-                elif d in ("copy_mapping", "keys", "values"):
+                elif d == "filter_mapping":
+                    n_ = rng.choice([0, 1, lm // 2, lm, lm + 1])
+                    cmds.append("filter_mapping %d %d" % (n_, rng.choice([0, 1, n_ // 2, n_, n_ + 3])))
+                elif d in ("copy_mapping", "keys", "values", "map_mapping"):
                     cmds.append("%s %d" % (d, rng.choice([0, 1, lm // 2, lm, lm + 1, min(lm, la), min(lm, la + 1)])))
                 elif d == "lower_case":
                     cmds.append("lower_case %d" % near(ls, False))
